@@ -8,6 +8,7 @@ import (
 	"os"
 	"os/exec"
 	"path/filepath"
+	"reflect"
 	"runtime"
 	"strings"
 	"syscall"
@@ -88,7 +89,7 @@ func c19jsonVal(r *rand.Rand, d int) interface{} {
 		return m
 	default:
 		l := []interface{}{}
-		for i, n := 0, 1+r.Intn(3); i < n; i++ {
+		for i, n := 0, r.Intn(4); i < n; i++ { // (may stay empty: [] is not null)
 			l = append(l, c19jsonVal(r, d-1))
 		}
 		return l
@@ -156,8 +157,12 @@ func (c19) Case(c *core.Ctx) {
 	if fn == filepath.Join(dir, "c19.data") && r.Intn(8) == 0 {
 		// a legal file name close to NAME_MAX (255 bytes)
 		fn = filepath.Join(dir, strings.Repeat("n", 236+r.Intn(20)))
+		if r.Intn(2) == 0 {
+			// a name with characters that mean something to shells, printf and environment expansion - and to nobody else
+			fn = filepath.Join(dir, []string{"c19-$HOME.data", "c19-${x}-%d.data", "c19 $1 'q'.data", "c19-~-*.data"}[r.Intn(4)])
+		}
 		defer os.Remove(fn)
-		c.Count("file-name-near-NAME_MAX")
+		c.Count("file-name-near-NAME_MAX-or-with-shell-characters")
 	}
 	if fn == filepath.Join(dir, "c19.data") && r.Intn(10) == 0 {
 		// a name that goes through a symbolic link to a directory and then "..": the operating system resolves it to
@@ -360,7 +365,7 @@ func (c19) Case(c *core.Ctx) {
 			c.Violate("c19-gob", "Gob followed by NewMapGob does not return an equal Map", core.D{"map": jv.Show(m), "back": jv.Show(back), "err": fmt.Sprint(err)})
 		}
 		cp, err := m.Copy()
-		if err != nil || jv.Fp(cp) != jv.Fp(m) {
+		if err != nil || jv.Fp(cp) != jv.Fp(m) || !reflect.DeepEqual(map[string]interface{}(cp), map[string]interface{}(m)) { // (deeply equal: an empty list is not a nil list)
 			c.Violate("c19-copy", "Copy does not return an equal Map", core.D{"map": jv.Show(m), "copy": jv.Show(cp), "err": fmt.Sprint(err)})
 		}
 	}
